@@ -361,12 +361,12 @@ pub fn run(args: &Args) {
     let rt = tokio::runtime::Builder::new_multi_thread().worker_threads(4).enable_all().build().expect("rt");
     rt.block_on(async {
         if level == "pipeline" {
-            let n = args.n(120, 6000);
+            let n = args.n(600, 12000);
             for c in 0..n {
                 pipeline_case(args.seed, c, &mut rep).await;
             }
         } else {
-            let n = args.n(6, 150);
+            let n = args.n(16, 200);
             for c in 0..n {
                 node_case(args.seed, c, &mut rep).await;
             }
